@@ -85,10 +85,12 @@ class Emitter:
         self.requested = set()
         self.rec_index = None
         self.closures = {}                # lambda record id -> info
+        self.global_inits = []
         self.tmp_n = 0
         self.typedefs_needed = set()
         self.need_exc = False
         self.exc_classes = {}
+        self.cur_init_field = None
 
     # ================================================================== records / types
     def records(self):
@@ -326,8 +328,9 @@ class Emitter:
         return d, True
 
     def is_instance_member(self, fn):
+        f0 = self.tu.byid.get(self.tu.first.get(fn['id'], fn['id']), fn)
         return fn['kind'] in ('CXXMethodDecl', 'CXXConstructorDecl', 'CXXDestructorDecl', 'CXXConversionDecl') \
-            and fn.get('storageClass') != 'static'
+            and fn.get('storageClass') != 'static' and f0.get('storageClass') != 'static'
 
     def ret_ctype(self, fn):
         if fn['kind'] in ('CXXConstructorDecl', 'CXXDestructorDecl'):
@@ -509,6 +512,7 @@ class Emitter:
         e = ci['inner'][0] if ci.get('inner') else None
         out = []
         self.pre = []
+        self.cur_init_field = ci.get('anyInit')
         if 'anyInit' in ci:
             fld = ci['anyInit']
             target = 'self->%s' % fld['name']
@@ -561,7 +565,12 @@ class Emitter:
                 out.append('%s = 0;' % target)
             return out
         if se['kind'] == 'CXXDefaultInitExpr':
-            raise Abort('default member initialiser')
+            fld = self.cur_init_field
+            fd = self.tu.byid.get(fld['id'], fld) if fld else None
+            ini = [c for c in (fd or {}).get('inner', ()) if 'Comment' not in c.get('kind', '') and not c.get('kind', '').endswith('Attr')]
+            if not ini:
+                raise Abort('default member initialiser not found')
+            return self.init_object(target, t, ini[-1])
         top = self.top_call(e)
         s = self.expr(e, top=top)
         out.append('%s = %s;' % (target, s))
@@ -1273,7 +1282,21 @@ class Emitter:
                      and not c.get('kind', '').endswith('Attr')]
             q = t.get('qualType', '')
             is_const = bool(re.search(r'^const\b|\bconst$', q.strip())) or best.get('constexpr')
-            if inits and best.get('init') and is_const and self.rec_of_type_safe(t) is None:
+            dynamic = False
+            if inits and best.get('init') and is_const and self.rec_of_type_safe(t) is None and not best.get('constexpr') \
+                    and inits[0].get('kind') not in ('ConstantExpr', 'IntegerLiteral') and self.has_call(inits[0]):
+                dynamic = True
+                save = (self.pre, getattr(self, 'stmt_calls_may_throw', False), self.cur_lambda, self.cur_top)
+                self.pre, self.cur_lambda = [], None
+                if not hasattr(self, 'calls'):
+                    self.calls, self.stats = [], {}
+                v = self.expr(inits[0], top=self.top_call(inits[0]))
+                if self.pre:
+                    raise Abort('global initialiser needs statements: ' + decl['name'])
+                self.pre, self.stmt_calls_may_throw, self.cur_lambda, self.cur_top = save
+                self.global_inits.append('%s = %s;' % (cn, v))
+                text = text + ';  /* dynamically initialised: see __verif_static_init */'
+            elif inits and best.get('init') and is_const and self.rec_of_type_safe(t) is None:
                 save = (self.pre, getattr(self, 'stmt_calls_may_throw', False), self.cur_lambda)
                 self.pre, self.cur_lambda = [], None
                 cv = self.const_value(inits[0]) if inits[0].get('kind') == 'ConstantExpr' else None
@@ -1287,6 +1310,11 @@ class Emitter:
             self.globals[key] = (cn, text)
             self.global_order.append(key)
         return cn
+
+    def has_call(self, n):
+        if n.get('kind') in ('CallExpr', 'CXXMemberCallExpr', 'CXXOperatorCallExpr', 'CXXConstructExpr'):
+            return True
+        return any(self.has_call(c) for c in n.get('inner', ()))
 
     def member(self, e):
         base = e['inner'][0]
@@ -1456,7 +1484,7 @@ class Emitter:
         if st is not None:
             return st
         d, has = self.request(mid)
-        if d.get('storageClass') == 'static':
+        if not self.is_instance_member(d):
             text = '%s(%s)' % (self.fn_cname(d), ', '.join(self.args(d, e['inner'][1:])))
             return self.finish_call(e, d, text, discard)
         this = self.sub(obj) if me.get('isArrow') else self.addr_of(obj)
@@ -1511,7 +1539,7 @@ class Emitter:
             # std::less<T*> etc.: libstdc++ compares the uintptr_t values
             op = {'less': '<', 'greater': '>', 'less_equal': '<=', 'greater_equal': '>='}[cls['name']]
             return '((unsigned long)%s %s (unsigned long)%s)' % (self.sub(args[1]), op, self.sub(args[2]))
-        if md.get('kind') == 'CXXMethodDecl' and md.get('storageClass') != 'static':
+        if md.get('kind') == 'CXXMethodDecl' and self.is_instance_member(md):
             fake_me = {'isArrow': False}
             st = self.atomic_member(md, fake_me, args[0], {'inner': [None] + args[1:], 'type': e['type']})
             if st is not None:
@@ -1722,6 +1750,8 @@ class Emitter:
                 out.append(sig + ';  /* no body in this unit, no contract */')
         for cn in self.func_order:
             out.append(self.funcs[cn]['sig'] + ';')
+        out.append('/* dynamic initialisers of namespace-scope / static member constants */')
+        out.append('void __verif_static_init(void)\n{\n' + '\n'.join('  ' + x for x in self.global_inits) + '\n}\n')
         for cn in self.func_order:
             f = self.funcs[cn]
             body = []
